@@ -321,6 +321,12 @@ pub fn plan(property: &str, tier: &str) -> Option<CheckSpec> {
             }
             // cancel() while the calling thread's command queue is full (the overload programs of
             // C09 that contain a cancel)
+            // ... and the cancelled root finished by another thread after the cycle that emptied the ring
+            for pr in overload_remote_finish_programs() {
+                for c in [true, false] {
+                    b.add("SCHED", pr.clone(), c, Some(1), &rules, false);
+                }
+            }
             let ring: Vec<Program> = overload_programs(if quick { 2 } else { 3 }).into_iter().filter(|p| p.actors[0].ops.iter().any(|o| matches!(o, Op::Cancel { .. }))).collect();
             let nring = ring.len();
             for pr in ring {
